@@ -10,8 +10,9 @@ Import ListNotations.
 Open Scope Z_scope.
 
 Definition case :=
-  (list classdef * nat * list (op * obs) * list classdef * nat * list (op * obs) * list nat)%type.
-(* last component: type(obj).__mro__ of the main instance as class indices *)
+  (list classdef * nat * list (op * obs) * list classdef * nat * list (bool * op * obs) * list nat)%type.
+(* the main history runs on two fresh instances of class c (flag true = the second one);
+   last component: type(obj).__mro__ of the main instances as class indices *)
 
 Definition outcome_eqb (a b : outcome) : bool :=
   match a, b with
@@ -34,6 +35,14 @@ Fixpoint corr_hist (pt : ptab) (i : Z) (s : state) (h : list (op * obs)) : list 
       map (fun c => 100 * i + c) (obs_diff m ob) ++ corr_hist pt (i + 1) s' r
   end.
 
+Fixpoint corr_hist2 (pt : ptab) (i : Z) (s : state2) (h : list (bool * op * obs)) : list Z :=
+  match h with
+  | [] => []
+  | (w, o, ob) :: r =>
+      let '(s', m) := step2 pt s w o in
+      map (fun c => 100 * i + c) (obs_diff m ob) ++ corr_hist2 pt (i + 1) s' r
+  end.
+
 Definition class_tables (h : list classdef) (c : nat) : ctab * ptab := tabs_nth (tables (roots ++ h)) c.
 
 (* code 3 (at step 0): the law's C3 linearisation is not Python's __mro__ *)
@@ -43,14 +52,15 @@ Definition corr_codes (c : case) : list Z :=
   let t := tabs_nth (staged_tables (roots ++ h1) k (map fst pre) h2) cl in
   chk 3 (list_eqb Nat.eqb (nth cl (mros (roots ++ h1 ++ h2)) []) mro_obs)
   ++ corr_hist (snd t1) 0 (init_state (fst t1)) pre
-  ++ corr_hist (snd t) (Z.of_nat (length pre)) (init_state (fst t)) hist.
+  ++ corr_hist2 (snd t) (Z.of_nat (length pre)) (init_state2 (fst t)) hist.
 
 Definition vkind_eqb (a b : vkind) : bool :=
   match a, b with VInt, VInt | VStr, VStr | VCInt, VCInt => true | _, _ => false end.
 Definition policy_eqb (a b : policy) : bool :=
   match a, b with
-  | PPython, PPython | PDisallow, PDisallow | PReadOnly, PReadOnly | PEvent, PEvent => true
-  | PAny x, PAny y | PConstant x, PConstant y => Z.eqb x y
+  | PPython, PPython | PDisallow, PDisallow | PEvent None, PEvent None => true
+  | PEvent (Some k), PEvent (Some l) => vkind_eqb k l
+  | PAny x, PAny y | PConstant x, PConstant y | PReadOnly x, PReadOnly y => Z.eqb x y
   | PTyped k x, PTyped l y => vkind_eqb k l && Z.eqb x y
   | _, _ => false
   end.
@@ -75,9 +85,21 @@ Fixpoint law_tag (mr sr : name -> rule) (i : Z) (ls : lstate) (h : list (op * ob
        end) ++ law_tag mr sr (i + 1) (law_next ls o ob) r
   end.
 
+Fixpoint law_tag2 (mr sr : name -> rule) (i : Z) (la lb : lstate) (h : list (bool * op * obs)) : list Z :=
+  match h with
+  | [] => []
+  | (w, o, ob) :: r =>
+      let me := if w then lb else la in
+      (match law_step mr me o ob with
+       | [] => []
+       | codes => if rule_eqb (mr (op_name o)) (sr (op_name o))
+                  then map (fun c => 100 * i + c) codes else [100 * i + 99]
+       end) ++ law_tag2 mr sr (i + 1) (if w then la else law_next me o ob) (if w then law_next me o ob else lb) r
+  end.
+
 (* the law knows nothing of caches nor of the order in which update_traits_class_dict merges
    the bases: the class-level rule is that of the declarations along the MRO *)
 Definition law_codes (c : case) : list Z :=
   let '(h1, k, pre, h2, cl, hist, _) := c in
   law_tag (mro_rule h1 k) (spec_rule h1 k) 0 l_init pre
-  ++ law_tag (mro_rule (h1 ++ h2) cl) (spec_rule (h1 ++ h2) cl) (Z.of_nat (length pre)) l_init hist.
+  ++ law_tag2 (mro_rule (h1 ++ h2) cl) (spec_rule (h1 ++ h2) cl) (Z.of_nat (length pre)) l_init l_init hist.
